@@ -2,16 +2,19 @@
 C17 — PROPERTY THEOREMS.  "Action trees finish once with the documented result; nothing left running."
 
 Layer 1 (Action base lifecycle + the loop's deferred queue) — full, over every operation sequence.
-Layer 2 (trees) — structural theorems over arbitrary trees under the tree invariants `Inv`
-(evaluated by the driver on every state it visits); the control flow of SequenceAction proved equal
-to the documented loop for any number of children; counterexample theorems (by kernel evaluation of
-the executable model) for the four defects repaired by patches/C17-01…04, each paired with the
-theorem that the repaired configuration behaves.
+Layer 2 (trees) — the tree invariant `WF` (Inv.lean) is PROVED inductive: it holds in every state
+reachable from a freshly built tree by any sequence of ops (control calls at any pass, deferred calls,
+emits, clock steps, loop passes), for every tree shape.  Its corollaries: nothing left running below
+an ended action, no stale notification queued anywhere in the tree, the final hook ran exactly once
+iff the action ended, reset returns the freshly built state.  The control flow of SequenceAction is
+proved equal to the documented loop for any number of children; counterexample theorems (kernel
+evaluation of the model in the unrepaired configuration) for the defects repaired by
+patches/C17-01…05, each paired with the theorem that the repaired configuration behaves.
 
 What is NOT closed is listed at the end as `-- OPEN`.
 -/
 import TboxModel.C17.BaseProofs
-import TboxModel.C17.TreeProofs
+import TboxModel.C17.InvProofs
 import TboxModel.C17.SeqProofs
 namespace Tbox.C17
 
@@ -57,27 +60,49 @@ theorem C17_base_stopped_delivers_none (tmo : Option Nat) (ops : List BOp) :
       · exact absurd hs this.2.2.1
       · exact absurd hs this.2.2.2
 
-/-- **the final hook runs once per run**: `finish` runs the final callback of an assemble action
-exactly when it takes the action from a not-ended state to Finished; `stop` exactly when it takes it
-from Running/Pause to Stoped.  Both target states are left only by reset (see
-`C17_no_restart_underway`), so between two resets the hook runs at most once. -/
-theorem C17_final_once_per_run (d : Node) (cs : TL) (g : G) (s : Bool) (w : Nat) :
+/-- **the final hook**: `onFinal` is the one place where the final callback event is emitted (for an
+assemble action) and where the ghost counter `finals` is incremented; `finish` reaches it exactly when
+it takes the action from a not-ended state to Finished, `stop` exactly when it takes it from
+Running/Pause to Stoped. -/
+theorem C17_final_hook (d : Node) (cs : TL) (g : G) (s : Bool) (w : Nat) :
+    ((onFinal d g).1.finals = d.finals + 1 ∧ (onFinal d g).2.log = if d.isLeaf then g.log else .final d.id :: g.log) ∧
     ((finish d cs g s w).2.2.2 = true ↔ (d.st ≠ .finished ∧ d.st ≠ .stoped)) ∧
-    ((finish d cs g s w).2.2.2 = true → (finish d cs g s w).1.st = .finished) ∧
     ((finish d cs g s w).2.2.2 = false → finish d cs g s w = (d, cs, g, false)) ∧
     (d.underway = false → stop (.node d cs) g = (.node d cs, g)) := by
-  refine ⟨?_, ?_, ?_, ?_⟩
+  refine ⟨⟨rfl, ?_⟩, ?_, ?_, ?_⟩
+  · unfold onFinal; split <;> simp [G.emit]
   · unfold finish; split <;> rename_i h <;> simp at h ⊢ <;> grind
-  · unfold finish; split
-    · simp
-    · intro _
-      simp only [post, stopCurr]
-      repeat' split
-      all_goals simp
   · unfold finish; split
     · intro _; rfl
     · simp
   · intro h; rw [stop]; simp [h]
+
+/-- **the final hook runs exactly once per run that ends, never otherwise**: in every reachable state
+of every tree, for every action, the number of times its final hook ran since it was built / last
+reset is 1 if it is Finished or Stoped and 0 otherwise. -/
+theorem C17_final_once_per_run (t : T) (ops : List Op) (hc : Clean t = true) (hl : LeafShape t = true) :
+    AllNodes (fun d => d.finals == (if d.ended then 1 else 0)) (run t {} ops).1 = true := by
+  have h := wf_allNodes _ (reachable_wf t ops hc hl).1
+  revert h
+  generalize (run t {} ops).1 = r
+  intro h
+  have key : ∀ (P Q : Node → Bool), (∀ d, P d = true → Q d = true) →
+      (∀ t, AllNodes P t = true → AllNodes Q t = true) ∧ (∀ cs, AllNodesL P cs = true → AllNodesL Q cs = true) := by
+    intro P Q hPQ
+    exact ⟨fun t => T.rec (motive_1 := fun t => AllNodes P t = true → AllNodes Q t = true)
+        (motive_2 := fun cs => AllNodesL P cs = true → AllNodesL Q cs = true)
+        (fun d cs ih h => by simp only [AllNodes, Bool.and_eq_true] at h ⊢; exact ⟨hPQ d h.1, ih h.2⟩)
+        (fun _ => by simp [AllNodesL])
+        (fun t ts iht ihts h => by simp only [AllNodesL, Bool.and_eq_true] at h ⊢; exact ⟨iht h.1, ihts h.2⟩) t,
+      fun cs => TL.rec (motive_1 := fun t => AllNodes P t = true → AllNodes Q t = true)
+        (motive_2 := fun cs => AllNodesL P cs = true → AllNodesL Q cs = true)
+        (fun d cs ih h => by simp only [AllNodes, Bool.and_eq_true] at h ⊢; exact ⟨hPQ d h.1, ih h.2⟩)
+        (fun _ => by simp [AllNodesL])
+        (fun t ts iht ihts h => by simp only [AllNodesL, Bool.and_eq_true] at h ⊢; exact ⟨iht h.1, ihts h.2⟩) cs⟩
+  refine (key nodeOk _ ?_).1 r h
+  intro d hd
+  simp only [nodeOk, Bool.and_eq_true] at hd
+  exact hd.1.2
 
 /-- **no restart while under way** (and none after the end without reset): `start` on an action
 that is not Idle changes nothing in the tree or the loop — no `onStart`, no child started, no
@@ -100,7 +125,7 @@ the handlers of the sequence (onStart / onChildFinished as used by the executabl
 with the result of the documented loop, which is also what the reference evaluator computes. -/
 theorem C17_result_matches_doc_sequence (m : Mode3) (rs : List (Bool × Nat)) (d : Node)
     (hk : d.kind = .seq m) (hi : d.index = 0) :
-    drive rs (rs.length + 1) (serialStart d rs.length).1 (serialStart d rs.length).2 = some (docSeq m rs (true, 0)) := by
+    drive rs (rs.length + 1) (serialStart {} d rs.length).1 (serialStart {} d rs.length).2 = some (docSeq m rs (true, 0)) := by
   have := seq_drive_aux m rs rs.length 0 d (true, 0) (by omega) hk hi
   simpa [serialStart, hk] using this
 
@@ -111,17 +136,57 @@ theorem C17_result_matches_doc_sequence_eval (m : Mode3) (cs : TL) (rs : List (B
 example : docSeq .anyFail [(true, 2), (false, 2), (true, 2)] (true, 0) = (false, 2) := by decide
 example : drive [(true, 2), (false, 2)] 3 { id := 0, kind := .seq .all } (.start 0 [] (some (false, 6))) = some (false, 2) := by decide
 
-/-- **nothing left running after stop**: in a tree satisfying the invariant, `stop` leaves no action
-of the tree Running or Pause. -/
-theorem C17_quiescent_after_stop (t : T) (g : G) (h : Inv t = true) : Quiet (stop t g).1 = true :=
-  stop_quiet t g h
+/-- **the tree invariant holds in every reachable state** (item 1): for every freshly built tree
+(any shape over the provided composites, any timeouts) and every op sequence — control calls
+start/pause/resume/stop/reset placed at any pass, alone or back to back, deferred with runNext, emits on
+dummy leaves, clock steps, loop passes — the state reached satisfies `WF` (Inv.lean). -/
+theorem C17_tree_inv (t : T) (ops : List Op) (hc : Clean t = true) (hl : LeafShape t = true) :
+    WF (run t {} ops).1 = true :=
+  (reachable_wf t ops hc hl).1
 
-/-- **nothing left running after finish** (repaired code): whenever an action finishes — by its
-last child, by its own timeout, by a replayed result — none of its descendants stays Running/Pause. -/
-theorem C17_quiescent_after_finish (d : Node) (cs : TL) (g : G) (s : Bool) (w : Nat) (hf : g.cfg.fixFin = true)
-    (h : Inv (.node d cs) = true) (hok : (finish d cs g s w).2.2.2 = true) :
-    QuietL (finish d cs g s w).2.1 = true :=
-  finish_quiet d cs g s w hf h hok
+/-- **nothing left running**: in every reachable state, below every action that is not under way
+(Idle, Finished, Stoped) no action is Running or Pause — whatever ended it: its last child, its own
+timeout, a replayed result, stop(). -/
+theorem C17_quiescent_after_end (t : T) (ops : List Op) (hc : Clean t = true) (hl : LeafShape t = true) :
+    EndedQuiet (run t {} ops).1 = true :=
+  wf_endedQuiet _ (C17_tree_inv t ops hc hl)
+
+/-- **after stop nothing is under way**: `stop` in any reachable state leaves the whole tree quiet. -/
+theorem C17_quiescent_after_stop (t : T) (ops : List Op) (hc : Clean t = true) (hl : LeafShape t = true) :
+    Quiet (stop (run t {} ops).1 (run t {} ops).2).1 = true :=
+  (stop_wf _ _ (reachable_wf t ops hc hl).1 (reachable_wf t ops hc hl).2).2.2
+
+/-- **no stale notification anywhere in the tree** (item 5): in every reachable state every action
+satisfies `nodeOk`: a finish notification is queued only at an action that is Finished (so none from
+a reset or stopped one), a block notification only at one that is neither Idle nor Stoped, a replay of
+a held-back result only while neither Idle nor Stoped and tracked by its run id; timers are armed only
+while not Idle; an Idle action has exactly the fields of a freshly built one. -/
+theorem C17_no_stale_anywhere (t : T) (ops : List Op) (hc : Clean t = true) (hl : LeafShape t = true) :
+    AllNodes nodeOk (run t {} ops).1 = true :=
+  wf_allNodes _ (C17_tree_inv t ops hc hl)
+
+/-- the per-composite invariants of item 5, as they are stated inside `WF` (`childrenOk`): below a
+serial composite that is under way only `curr_action_` may be under way and only it may have a
+finish notification queued; a held-back result (stored, or re-posted by onResume) exists only while
+there is no current child and no child notification is queued. -/
+theorem C17_serial_invariants (d : Node) (cs : TL) (h : WF (.node d cs) = true) (hs : d.isSerial = true) (hu : d.underway = true) :
+    QuietExcept cs d.curr = true ∧ NoFinExcept cs d.curr = true ∧
+    ((d.held = none ∧ d.tasks.any (fun p => p.2.isReplay) = false) ∨ (d.curr = none ∧ NoFinL cs = true)) := by
+  have hch := (wf_parts d cs h).2.2.1
+  rw [childrenOk_serial_underway d cs hs hu] at hch
+  simp only [Bool.and_eq_true, Bool.or_eq_true, Option.isNone_iff_eq_none, Bool.not_eq_true'] at hch
+  exact ⟨hch.1.1, hch.1.2, hch.2⟩
+
+/-- **reset gives back the freshly built tree** (item 4): in every reachable state `reset` yields a tree
+all of whose actions have the fields of a freshly built action (`Clean`: state, result, queue, timers,
+curr, held-back results, index, bookkeeping of ParallelAction, final-hook counter); what may differ
+are the dead fields (run ids, SleepAction's finish_time_/remain, RepeatAction's remain_times_), which
+every run overwrites before it reads them; and the invariant holds again, so the next run starts
+from the same premises as the first. -/
+theorem C17_reset_fresh (t : T) (ops : List Op) (hc : Clean t = true) (hl : LeafShape t = true) :
+    Clean (reset (run t {} ops).1 (run t {} ops).2).1 = true ∧ WF (reset (run t {} ops).1 (run t {} ops).2).1 = true := by
+  have a := reset_wf _ _ (reachable_wf t ops hc hl).1 (reachable_wf t ops hc hl).2
+  exact ⟨a.2.2, a.1⟩
 
 /-! ### the defects (unrepaired configuration `old`) and their repairs, on concrete histories -/
 
@@ -130,15 +195,16 @@ def tl : List T → TL
   | [] => .nil
   | t :: ts => .cons t (tl ts)
 def comp (id : Nat) (k : Kind) (cs : List T) (tmo : Option Nat := none) : T := .node { id := id, kind := k, tmo := tmo } (tl cs)
-def old : Cfg := { fixPar := false, fixReplay := false, fixFin := false, fixBlk := false }
+def old : Cfg := { fixPar := false, fixReplay := false, fixFin := false, fixBlk := false, fixRep := false }
 def rootSt (r : T × G) : St := r.1.data.st
 def rootFins (r : T × G) : List (Bool × St) := r.2.log.filterMap fun e => match e with | .rootFin s _ st => some (s, st) | _ => none
 def rootBlks (r : T × G) : List St := r.2.log.filterMap fun e => match e with | .rootBlk _ st => some st | _ => none
 def fnCalls (r : T × G) : List Nat := r.2.log.reverse.filterMap fun e => match e with | .fn n => some n | _ => none
 
-/-- example trees satisfy the invariant used above (non-vacuity) -/
-example : Inv (comp 0 (.seq .all) [leaf 1 (.func true none), leaf 2 (.sleep 105)]) = true := by decide +kernel
-example : Inv (run (comp 0 (.seq .all) [leaf 1 (.func true none), leaf 2 (.sleep 105)]) {} [.calls [.start], .pass]).1 = true := by
+/-- freshly built example trees satisfy the hypotheses used above (non-vacuity) -/
+example : Clean (comp 0 (.seq .all) [leaf 1 (.func true none), leaf 2 (.sleep 105)]) = true ∧
+    LeafShape (comp 0 (.seq .all) [leaf 1 (.func true none), leaf 2 (.sleep 105)]) = true := by decide +kernel
+example : WF (run (comp 0 (.seq .all) [leaf 1 (.func true none), leaf 2 (.sleep 105)]) {} [.calls [.start], .pass]).1 = true := by
   decide +kernel
 
 /-- Parallel [Fs, Fs]: `start; pause` before the children's notifications are delivered, `resume`. -/
@@ -211,25 +277,34 @@ theorem C17_sequence_header_literal_differs :
     eval (comp 0 (.seq .all) [leaf 1 (.func false none)]) = some (false, 2) := by
   decide +kernel
 
-/-- RepeatAction(times = 0): `for (i = 0; i < 0; …)` runs the child zero times; the code computes
-`times - 1` in size_t and calls the child again and again (here: 5 calls in 4 passes, still running). -/
+/-- RepeatAction(times = 0): `for (i = 0; i < 0; …)` runs the child zero times; the unrepaired code
+computes `times - 1` in size_t and calls the child again and again (here: 5 calls in 4 passes, still
+running); repaired (patches/C17-05) it finishes at once with success and never calls the child. -/
 theorem C17_repeat_zero_counterexample :
-    fnCalls (run (comp 0 (.repeat_ 0 .noBreak) [leaf 1 (.func true none)]) {} [.calls [.start], .pass, .pass, .pass]) = [1, 1, 1, 1, 1] ∧
-    rootSt (run (comp 0 (.repeat_ 0 .noBreak) [leaf 1 (.func true none)]) {} [.calls [.start], .pass, .pass, .pass]) = .running := by
+    fnCalls (run (comp 0 (.repeat_ 0 .noBreak) [leaf 1 (.func true none)]) { cfg := old } [.calls [.start], .pass, .pass, .pass]) = [1, 1, 1, 1, 1] ∧
+    rootSt (run (comp 0 (.repeat_ 0 .noBreak) [leaf 1 (.func true none)]) { cfg := old } [.calls [.start], .pass, .pass, .pass]) = .running := by
+  decide +kernel
+theorem C17_repeat_zero_repaired :
+    fnCalls (run (comp 0 (.repeat_ 0 .noBreak) [leaf 1 (.func true none)]) {} [.calls [.start], .pass]) = [] ∧
+    rootFins (run (comp 0 (.repeat_ 0 .noBreak) [leaf 1 (.func true none)]) {} [.calls [.start], .pass]) = [(true, .finished)] ∧
+    eval (comp 0 (.repeat_ 0 .noBreak) [leaf 1 (.func true none)]) = some (true, 7) := by
   decide +kernel
 
 /-! ### OPEN (stated, not proved; carried by the executable model + correspondence + monitors)
 
 -- OPEN C17_result_matches_doc: for every tree `t` with `evalOk t`, leaves that finish synchronously or
 --   after delays and no control call, `run t {} (start :: passes)` delivers exactly one root
---   notification, equal to `eval t`, once enough passes/clock steps were made.  Proved here for the
---   control flow of SequenceAction (`C17_result_matches_doc_sequence`, any number of children);
---   checked against `eval` by the driver on every generated control-free run (all composites).
--- OPEN C17_tree_inv: `Inv` (and "an Idle action has nothing queued/armed and only Idle descendants")
---   is preserved by `step` for every op on every tree in the repaired configuration; the driver
---   evaluates both predicates after every step of every generated history.
--- OPEN C17_reset_fresh: under that invariant `reset` returns every node to its freshly built
---   fields (except the dead fields finishTime/remain/remainTimes/run ids).
+--   notification, equal to `eval t`, and the leaf-start events are in the evaluator's visit order.
+--   Proved: the control flow of SequenceAction against the documented loop, any number of children
+--   (`C17_result_matches_doc_sequence`), and that what ends a run is well-formed (`C17_tree_inv`).
+--   Not proved: the same for the other composites and the composition through the queue (a big-step
+--   simulation: one pending task / armed timer at a time for serial trees, interleaving by pass for
+--   ParallelAction).  The driver compares every generated control-free run (all composites, all
+--   modes) with `eval`.
+-- OPEN C17_reset_bisim: after `reset` every later op sequence produces the same observable trace as on
+--   the freshly built tree (equal up to run ids and the dead fields).  Proved: `Clean` + `WF` of the
+--   reset tree (`C17_reset_fresh`); the driver's differential runs contain reset-then-rerun histories.
+-- OPEN ActionExecutor (action_executor.cpp) is not modelled.
 -/
 
 end Tbox.C17
